@@ -82,6 +82,7 @@ func TestCheck(t *testing.T) {
 	r.Require("nontrivial_cases", int64(n)*3/10)
 	r.Require("cases_with_broadcast", int64(n)/2)
 	r.Require("threshold_triggers_with_2plus_failing_validators", int64(n)/10)
+	r.Require("transplanted_sets_with_threshold_shares", int64(n)/5)
 
 	var sampled atomic.Int32
 	r.Cases(n, par, func(c *kit.Case) {
@@ -202,6 +203,7 @@ func runCase(r *kit.Run, c *kit.Case, sampled *atomic.Int32) {
 		for k := 0; k < 2; k++ {
 			d.act()
 		}
+		d.transplant(true) // by now every share's signature was on the wire and has been verified by the nodes
 	}
 	phase("4-byz-late")
 	if w.p.ExpireReplay {
